@@ -338,6 +338,7 @@ theorem C06_refines_linkRun {now : Nat} {classic : Bool} {A : SysDir.Op → Prop
   | kaEcho data _ _ ih => exact neutral ih (SysDir.sameW_kaEcho _ data now)
   | srtAck x _ _ ih => exact neutral ih (SysDir.sameW_srtAck _ x now)
   | stamp w ld ccb cct _ _ ih => exact neutral ih ⟨rfl, rfl, rfl⟩
+  | syncTimeout T _ _ ih => exact neutral ih ⟨rfl, rfl, rfl⟩
   | @sack a seq ha _ ih =>
     show Reach _ _ (proj (a.core.srtlaAck seq classic now).1)
     cases classic
@@ -819,6 +820,15 @@ theorem stamp_core (s : Sys.Sys F) (idx : Nat) (weak ld ccb : Bool) (cct : Nat) 
   unfold Hk.stampOne
   split <;> rfl
 
+/-- `sync_conn_timeout` (`Ev.syncTimeout`) leaves the whole accounting core of every link as it was. -/
+theorem sync_core (s : Sys.Sys F) (j : Nat) (l l' : FLink F)
+    (hl : s.links[j]? = some l) (hl' : (Sys.step s .syncTimeout).1.links[j]? = some l') :
+    l'.core = l.core := by
+  have hg : (s.links.map fun l => ({ l with connTimeoutMs := s.cfg.connTimeoutMs } : FLink F))[j]? = some l' := hl'
+  rw [List.getElem?_map, hl] at hg
+  simp only [Option.map_some, Option.some.injEq] at hg
+  rw [← hg]
+
 /-- **(a) Direction, every event constructor, every link** (the summary; the per-arm theorems above say more):
 a client datagram, a flush, the configuration / injection events and the verdict stamps never change a window except by the tear-down after a
 failed send (20000); an uplink datagram that is not an SRTLA ACK (0x9100) and not REG_ERR (0x9210) never
@@ -835,6 +845,7 @@ theorem C06_direction_sys (s : Sys.Sys F) (e : Sys.Ev) (hr : RangeInv s) (j : Na
     | .failNext _ => l' = l
     | .failBind _ => l' = l
     | .stamp _ _ _ _ _ => l'.core = l.core
+    | .syncTimeout => l'.core = l.core
     | .uplink _ _ data =>
         (Codec.getPacketTypeS data = none → l' = l) ∧
         ∀ pt, Codec.getPacketTypeS data = some pt →
@@ -856,6 +867,7 @@ theorem C06_direction_sys (s : Sys.Sys F) (e : Sys.Ev) (hr : RangeInv s) (j : Na
   | failNext cid => rw [show (Sys.step s (.failNext cid)).1.links = s.links from rfl, hl] at hl'; exact (Option.some.inj hl').symm
   | failBind cid => rw [show (Sys.step s (.failBind cid)).1.links = s.links from rfl, hl] at hl'; exact (Option.some.inj hl').symm
   | stamp idx weak ld ccb cct => exact stamp_core s idx weak ld ccb cct j l l' hl hl'
+  | syncTimeout => exact sync_core s j l l' hl hl'
   | uplink now cid data =>
     obtain ⟨h0, h⟩ := C06_direction_uplink s now cid data hr j l l' hl hl'
     refine ⟨h0, fun pt hpt => ?_⟩
@@ -1034,6 +1046,9 @@ theorem C06_fast_recovery_sys (s : Sys.Sys F) (e : Sys.Ev) (hr : RangeInv s) (j 
   | stamp idx weak ld ccb cct =>
     have e' : l'.core.cong = l.core.cong := by rw [stamp_core s idx weak ld ccb cct j l l' hl hl']
     exact same e'
+  | syncTimeout =>
+    have e' : l'.core.cong = l.core.cong := by rw [sync_core s j l l' hl hl']
+    exact same e'
   | uplink now cid data =>
     obtain ⟨h0, h⟩ := C06_direction_uplink s now cid data hr j l l' hl hl'
     cases hpt : Codec.getPacketTypeS data with
@@ -1126,6 +1141,7 @@ theorem C06_direction_run (s : Sys.Sys F) (pre : List Sys.Ev) (e : Sys.Ev)
     | .failNext _ => l' = l
     | .failBind _ => l' = l
     | .stamp _ _ _ _ _ => l'.core = l.core
+    | .syncTimeout => l'.core = l.core
     | .uplink _ _ data =>
         (Codec.getPacketTypeS data = none → l' = l) ∧
         ∀ pt, Codec.getPacketTypeS data = some pt →
